@@ -291,7 +291,7 @@ def «urcu_adaptative_wake_up.params» : List String := ["wait"]
 
 /-- `urcu_adaptative_busy_wait` (src/urcu-wait.h) -/
 def «urcu_adaptative_busy_wait» : Stmt :=
-  block [(.assign "_goto_skip_futex_wait" (.lit 0)), (.prim none .rmb []), (.assign "i" (.lit 0)), (.loop (.ifte (.bin .lt (.var "i") (.cst "URCU_WAIT_ATTEMPTS" (1000))) (block [(.prim (some "_t1") .uload [.fieldAddr (.var "wait") "state", .cst "CMM_ACQUIRE" (2)]), (.ifte (.bin .ne (.var "_t1") (.cst "URCU_WAIT_WAITING" (0))) (block [(.assign "_goto_skip_futex_wait" (.lit 1)), (.brk)]) (.skip)), (.ifte (.var "_goto_skip_futex_wait") (.brk) (.prim none .relax [])), (.ifte (.var "_goto_skip_futex_wait") (.brk) (block [(.assign "_t2" (.var "i")), (.assign "i" (.bin .add (.var "i") (.lit 1)))]))]) (.brk))), (.ifte (.var "_goto_skip_futex_wait") (.skip) (.loop (block [(.prim (some "_t3") .uload [.fieldAddr (.var "wait") "state", .cst "CMM_ACQUIRE" (2)]), (.ifte (.bin .eq (.var "_t3") (.cst "URCU_WAIT_WAITING" (0))) (block [(.prim (some "_t4") (.ext "futex_noasync") [.fieldAddr (.var "wait") "state", .cst "FUTEX_WAIT" (0), .cst "URCU_WAIT_WAITING" (0), .null, .null, .lit 0]), (.ifte (.un .lnot (.var "_t4")) (.cont) (.skip)), (.prim (some "_t5") (.ext "errno") []), (.assign "_t6" (.var "_t5")), (.ifte (.bin .eq (.var "_t6") (.cst "EAGAIN" (11))) (block [(.assign "_goto_skip_futex_wait" (.lit 1)), (.brk), (.ifte (.var "_goto_skip_futex_wait") (.brk) (.skip))]) (.ifte (.bin .eq (.var "_t6") (.cst "EINTR" (4))) (.skip) (block [(.prim (some "_t7") (.ext "errno") []), (.prim none (.ext "urcu_die") [.var "_t7"])]))), (.ifte (.var "_goto_skip_futex_wait") (.brk) (.skip))]) (.brk))]))), (.prim none .uor [.fieldAddr (.var "wait") "state", .cst "URCU_WAIT_RUNNING" (2), .cst "CMM_RELAXED" (0)]), (.assign "i" (.lit 0)), (.loop (.ifte (.bin .lt (.var "i") (.cst "URCU_WAIT_ATTEMPTS" (1000))) (block [(.prim (some "_t8") .uload [.fieldAddr (.var "wait") "state", .cst "CMM_RELAXED" (0)]), (.ifte (.bin .band (.var "_t8") (.cst "URCU_WAIT_TEARDOWN" (4))) (.brk) (.skip)), (.prim none .relax []), (.assign "_t9" (.var "i")), (.assign "i" (.bin .add (.var "i") (.lit 1)))]) (.brk))), (.loop (block [(.prim (some "_t10") .uload [.fieldAddr (.var "wait") "state", .cst "CMM_ACQUIRE" (2)]), (.ifte (.un .lnot (.bin .band (.var "_t10") (.cst "URCU_WAIT_TEARDOWN" (4)))) (.prim none (.ext "poll") [.null, .lit 0, .lit 10]) (.brk))]))]
+  block [(.assign "_goto_skip_futex_wait" (.lit 0)), (.prim none .rmb []), (.assign "i" (.lit 0)), (.loop (.ifte (.bin .lt (.var "i") (.cst "URCU_WAIT_ATTEMPTS" (1000))) (block [(.prim (some "_t1") .uload [.fieldAddr (.var "wait") "state", .cst "CMM_ACQUIRE" (2)]), (.ifte (.bin .ne (.var "_t1") (.cst "URCU_WAIT_WAITING" (0))) (block [(.assign "_goto_skip_futex_wait" (.lit 1)), (.brk)]) (.skip)), (.ifte (.var "_goto_skip_futex_wait") (.brk) (.prim none .relax [])), (.ifte (.var "_goto_skip_futex_wait") (.brk) (block [(.assign "_t2" (.var "i")), (.assign "i" (.bin .add (.var "i") (.lit 1)))]))]) (.brk))), (.ifte (.var "_goto_skip_futex_wait") (.skip) (.loop (block [(.prim (some "_t3") .uload [.fieldAddr (.var "wait") "state", .cst "CMM_ACQUIRE" (2)]), (.ifte (.bin .eq (.var "_t3") (.cst "URCU_WAIT_WAITING" (0))) (block [(.prim (some "_t4") (.ext "futex_noasync") [.fieldAddr (.var "wait") "state", .cst "FUTEX_WAIT" (0), .cst "URCU_WAIT_WAITING" (0), .null, .null, .lit 0]), (.ifte (.un .lnot (.var "_t4")) (.cont) (.skip)), (.prim (some "_t5") (.ext "errno") []), (.assign "_t6" (.var "_t5")), (.ifte (.bin .eq (.var "_t6") (.cst "EAGAIN" (11))) (block [(.assign "_goto_skip_futex_wait" (.lit 1)), (.brk)]) (.ifte (.bin .eq (.var "_t6") (.cst "EINTR" (4))) (.skip) (block [(.prim (some "_t7") (.ext "errno") []), (.prim none (.ext "urcu_die") [.var "_t7"])])))]) (.brk))]))), (.assign "_goto_skip_futex_wait" (.lit 0)), (.prim none .uor [.fieldAddr (.var "wait") "state", .cst "URCU_WAIT_RUNNING" (2), .cst "CMM_RELAXED" (0)]), (.assign "i" (.lit 0)), (.loop (.ifte (.bin .lt (.var "i") (.cst "URCU_WAIT_ATTEMPTS" (1000))) (block [(.prim (some "_t8") .uload [.fieldAddr (.var "wait") "state", .cst "CMM_RELAXED" (0)]), (.ifte (.bin .band (.var "_t8") (.cst "URCU_WAIT_TEARDOWN" (4))) (.brk) (.skip)), (.prim none .relax []), (.assign "_t9" (.var "i")), (.assign "i" (.bin .add (.var "i") (.lit 1)))]) (.brk))), (.loop (block [(.prim (some "_t10") .uload [.fieldAddr (.var "wait") "state", .cst "CMM_ACQUIRE" (2)]), (.ifte (.un .lnot (.bin .band (.var "_t10") (.cst "URCU_WAIT_TEARDOWN" (4)))) (.prim none (.ext "poll") [.null, .lit 0, .lit 10]) (.brk))]))]
 def «urcu_adaptative_busy_wait.params» : List String := ["wait"]
 
 /-- `call_rcu_wait` (src/urcu-call-rcu-impl.h) -/
@@ -354,6 +354,11 @@ def «wait_defer» : Stmt :=
   block [(.prim none .udec [.addrGlob "defer_thread_futex", .cst "CMM_RELAXED" (0)]), (.prim none .mb []), (.prim (some "_t1") .uload [.addrGlob "defer_thread_stop", .cst "CMM_RELAXED" (0)]), (.ifte (.var "_t1") (block [(.prim none .ustore [.addrGlob "defer_thread_futex", .lit 0, .cst "CMM_RELAXED" (0)]), (.prim none (.ext "pthread_exit") [.lit 0])]) (.skip)), (.prim (some "_t2") (.ext "rcu_defer_num_callbacks") []), (.ifte (.var "_t2") (block [(.prim none .mb []), (.prim none .ustore [.addrGlob "defer_thread_futex", .lit 0, .cst "CMM_RELAXED" (0)])]) (block [(.prim none .rmb []), (.loop (block [(.prim (some "_t3") .uload [.addrGlob "defer_thread_futex", .cst "CMM_RELAXED" (0)]), (.ifte (.bin .eq (.var "_t3") (.lit (-1))) (block [(.prim (some "_t4") (.ext "futex_noasync") [.addrGlob "defer_thread_futex", .cst "FUTEX_WAIT" (0), .lit (-1), .null, .null, .lit 0]), (.ifte (.un .lnot (.var "_t4")) (.cont) (.skip)), (.prim (some "_t5") (.ext "errno") []), (.assign "_t6" (.var "_t5")), (.ifte (.bin .eq (.var "_t6") (.cst "EAGAIN" (11))) (.ret none) (.ifte (.bin .eq (.var "_t6") (.cst "EINTR" (4))) (.skip) (block [(.prim (some "_t7") (.ext "errno") []), (.prim none (.ext "urcu_die") [.var "_t7"])])))]) (.brk))]))]))]
 def «wait_defer.params» : List String := []
 
+/-- `urcu_wake_all_waiters` (src/urcu-wait.h) -/
+def «urcu_wake_all_waiters» : Stmt :=
+  block [(.prim (some "_t1") (.ext "cds_wfs_for_each_blocking_safe.first") [.pload (.fieldAddr (.var "waiters") "head")]), (.loop (block [(.assign "iter" (.var "_t1")), (.ifte (.var "iter") (.skip) (.brk)), (.prim (some "_t1") (.ext "cds_wfs_for_each_blocking_safe.next") ([.pload (.fieldAddr (.var "waiters") "head")] ++ [.var "iter"])), (.assign "iter_n" (.var "_t1")), (.assign "wait_node" (.var "iter")), (.prim (some "_t2") .uload [.fieldAddr (.var "wait_node") "state", .cst "CMM_RELAXED" (0)]), (.ifte (.bin .band (.var "_t2") (.cst "URCU_WAIT_RUNNING" (2))) (.cont) (.skip)), (.call none ["wait"] [.var "wait_node"] «urcu_adaptative_wake_up»)]))]
+def «urcu_wake_all_waiters.params» : List String := ["waiters"]
+
 /-- `smp_mb_master` (src/urcu.c, with RCU_MEMBARRIER) -/
 def «memb.smp_mb_master» : Stmt :=
   .ifte (.pload (.addrGlob "urcu_memb_has_sys_membarrier")) (block [(.ifte (.pload (.addrGlob "urcu_memb_has_sys_membarrier_private_expedited")) (.assign "_t1" (.cst "MEMBARRIER_CMD_PRIVATE_EXPEDITED" (8))) (.assign "_t1" (.cst "MEMBARRIER_CMD_SHARED" (1)))), (.prim (some "_t2") (.ext "membarrier") [.var "_t1", .lit 0]), (.ifte (.var "_t2") (block [(.prim (some "_t3") (.ext "errno") []), (.prim none (.ext "urcu_die") [.var "_t3"])]) (.skip))]) (.prim none .mb [])
@@ -361,8 +366,23 @@ def «memb.smp_mb_master.params» : List String := []
 
 /-- `wait_gp` (src/urcu.c, with RCU_MEMBARRIER) -/
 def «memb.wait_gp» : Stmt :=
-  block [(.assign "_goto_end" (.lit 0)), (.call none [] [] «memb.smp_mb_master»), (.prim none (.ext "mutex_unlock") [.addrGlob "rcu_registry_lock"]), (.loop (block [(.prim (some "_t1") .uload [.fieldAddr (.addrGlob "rcu_gp") "futex", .cst "CMM_RELAXED" (0)]), (.ifte (.bin .eq (.var "_t1") (.lit (-1))) (block [(.prim (some "_t2") (.ext "futex_async") [.fieldAddr (.addrGlob "rcu_gp") "futex", .cst "FUTEX_WAIT" (0), .lit (-1), .null, .null, .lit 0]), (.ifte (.un .lnot (.var "_t2")) (.cont) (.skip)), (.prim (some "_t3") (.ext "errno") []), (.assign "_t4" (.var "_t3")), (.ifte (.bin .eq (.var "_t4") (.cst "EAGAIN" (11))) (block [(.assign "_goto_end" (.lit 1)), (.brk), (.ifte (.var "_goto_end") (.brk) (.skip))]) (.ifte (.bin .eq (.var "_t4") (.cst "EINTR" (4))) (.skip) (block [(.prim (some "_t5") (.ext "errno") []), (.prim none (.ext "urcu_die") [.var "_t5"])]))), (.ifte (.var "_goto_end") (.brk) (.skip))]) (.brk))])), (.prim none (.ext "mutex_lock") [.addrGlob "rcu_registry_lock"])]
+  block [(.assign "_goto_end" (.lit 0)), (.call none [] [] «memb.smp_mb_master»), (.prim none (.ext "mutex_unlock") [.addrGlob "rcu_registry_lock"]), (.loop (block [(.prim (some "_t1") .uload [.fieldAddr (.addrGlob "rcu_gp") "futex", .cst "CMM_RELAXED" (0)]), (.ifte (.bin .eq (.var "_t1") (.lit (-1))) (block [(.prim (some "_t2") (.ext "futex_async") [.fieldAddr (.addrGlob "rcu_gp") "futex", .cst "FUTEX_WAIT" (0), .lit (-1), .null, .null, .lit 0]), (.ifte (.un .lnot (.var "_t2")) (.cont) (.skip)), (.prim (some "_t3") (.ext "errno") []), (.assign "_t4" (.var "_t3")), (.ifte (.bin .eq (.var "_t4") (.cst "EAGAIN" (11))) (block [(.assign "_goto_end" (.lit 1)), (.brk)]) (.ifte (.bin .eq (.var "_t4") (.cst "EINTR" (4))) (.skip) (block [(.prim (some "_t5") (.ext "errno") []), (.prim none (.ext "urcu_die") [.var "_t5"])])))]) (.brk))])), (.assign "_goto_end" (.lit 0)), (.prim none (.ext "mutex_lock") [.addrGlob "rcu_registry_lock"])]
 def «memb.wait_gp.params» : List String := []
+
+/-- `urcu_common_reader_state` (include/urcu/static/urcu-common.h) -/
+def «urcu_common_reader_state» : Stmt :=
+  block [(.prim (some "_t1") .uload [.var "ctr", .cst "CMM_RELAXED" (0)]), (.assign "v" (.var "_t1")), (.ifte (.un .lnot (.bin .band (.var "v") (.cst "URCU_GP_CTR_NEST_MASK" (4294967295)))) (.ret (some (.cst "URCU_READER_INACTIVE" (2)))) (.skip)), (.ifte (.un .lnot (.bin .band (.bin .bxor (.var "v") (.pload (.fieldAddr (.var "gp") "ctr"))) (.cst "URCU_GP_CTR_PHASE" (4294967296)))) (.ret (some (.cst "URCU_READER_ACTIVE_CURRENT" (0)))) (.skip)), (.ret (some (.cst "URCU_READER_ACTIVE_OLD" (1))))]
+def «urcu_common_reader_state.params» : List String := ["gp", "ctr", "group"]
+
+/-- `wait_for_readers` (src/urcu.c, with RCU_MEMBARRIER) -/
+def «memb.wait_for_readers» : Stmt :=
+  block [(.assign "wait_loops" (.lit 0)), (.loop (block [(.ifte (.bin .lt (.var "wait_loops") (.cst "memb.RCU_QS_ACTIVE_ATTEMPTS" (100))) (block [(.assign "_t1" (.var "wait_loops")), (.assign "wait_loops" (.bin .add (.var "wait_loops") (.lit 1)))]) (.skip)), (.ifte (.bin .ge (.var "wait_loops") (.cst "memb.RCU_QS_ACTIVE_ATTEMPTS" (100))) (block [(.prim none .udec [.fieldAddr (.addrGlob "rcu_gp") "futex", .cst "CMM_RELAXED" (0)]), (.call none [] [] «memb.smp_mb_master»)]) (.skip)), (.prim (some "_t2") (.ext "cds_list_for_each_entry_safe.first") [.var "input_readers"]), (.loop (block [(.assign "index" (.var "_t2")), (.ifte (.var "index") (.skip) (.brk)), (.prim (some "_t2") (.ext "cds_list_for_each_entry_safe.next") ([.var "input_readers"] ++ [.var "index"])), (.assign "tmp" (.var "_t2")), (.call (some "_t3") ["gp", "ctr", "group"] [.addrGlob "rcu_gp", .fieldAddr (.var "index") "ctr", .var "group"] «urcu_common_reader_state»), (.assign "_t4" (.var "_t3")), (.loop (block [(.ifte (.bin .eq (.var "_t4") (.cst "URCU_READER_ACTIVE_CURRENT" (0))) (block [(.ifte (.var "cur_snap_readers") (block [(.prim none (.ext "cds_list_move") [.fieldAddr (.var "index") "node", .var "cur_snap_readers"]), (.brk)]) (.skip)), (.prim none (.ext "cds_list_move") [.fieldAddr (.var "index") "node", .var "qsreaders"]), (.brk)]) (.ifte (.bin .eq (.var "_t4") (.cst "URCU_READER_INACTIVE" (2))) (block [(.prim none (.ext "cds_list_move") [.fieldAddr (.var "index") "node", .var "qsreaders"]), (.brk)]) (.ifte (.bin .eq (.var "_t4") (.cst "URCU_READER_ACTIVE_OLD" (1))) (.brk) (.skip)))), (.brk)]))])), (.prim (some "_t5") (.ext "cds_list_empty") [.var "input_readers"]), (.ifte (.var "_t5") (block [(.ifte (.bin .ge (.var "wait_loops") (.cst "memb.RCU_QS_ACTIVE_ATTEMPTS" (100))) (block [(.call none [] [] «memb.smp_mb_master»), (.prim none .ustore [.fieldAddr (.addrGlob "rcu_gp") "futex", .lit 0, .cst "CMM_RELAXED" (0)])]) (.skip)), (.brk)]) (.ifte (.bin .ge (.var "wait_loops") (.cst "memb.RCU_QS_ACTIVE_ATTEMPTS" (100))) (.call none [] [] «memb.wait_gp») (block [(.prim none (.ext "mutex_unlock") [.addrGlob "rcu_registry_lock"]), (.prim none .relax []), (.prim none (.ext "mutex_lock") [.addrGlob "rcu_registry_lock"])])))]))]
+def «memb.wait_for_readers.params» : List String := ["input_readers", "cur_snap_readers", "qsreaders", "group"]
+
+/-- `synchronize_rcu` (src/urcu.c, with RCU_MEMBARRIER) -/
+def «memb.synchronize_rcu» : Stmt :=
+  block [(.assign "_goto_out" (.lit 0)), (.pstore (.fieldAddr (.addrGlob "&wait") "state") (.cst "URCU_WAIT_WAITING" (0))), (.call (some "_t1") ["queue", "node"] [.addrGlob "gp_waiters", .addrGlob "&wait"] «urcu_wait_add»), (.ifte (.bin .ne (.var "_t1") (.lit 0)) (block [(.call none ["wait"] [.addrGlob "&wait"] «urcu_adaptative_busy_wait»), (.ret none)]) (.skip)), (.call none ["node", "state"] [.addrGlob "&wait", .cst "URCU_WAIT_RUNNING" (2)] «urcu_wait_set_state»), (.prim none (.ext "mutex_lock") [.addrGlob "rcu_gp_lock"]), (.call none ["waiters", "queue"] [.addrGlob "&waiters", .addrGlob "gp_waiters"] «urcu_move_waiters»), (.prim none (.ext "mutex_lock") [.addrGlob "rcu_registry_lock"]), (.prim (some "_t2") (.ext "cds_list_empty") [.addrGlob "registry"]), (.ifte (.var "_t2") (.assign "_goto_out" (.lit 1)) (.skip)), (.ifte (.var "_goto_out") (.skip) (block [(.call none [] [] «memb.smp_mb_master»), (.call none ["input_readers", "cur_snap_readers", "qsreaders", "group"] [.addrGlob "registry", .addrGlob "&cur_snap_readers", .addrGlob "&qsreaders", .addrGlob "&acquire_group"] «memb.wait_for_readers»), (.prim none .barrier []), (.prim none .mb []), (.prim none .ustore [.fieldAddr (.addrGlob "rcu_gp") "ctr", .bin .bxor (.pload (.fieldAddr (.addrGlob "rcu_gp") "ctr")) (.cst "URCU_GP_CTR_PHASE" (4294967296)), .cst "CMM_RELAXED" (0)]), (.prim none .barrier []), (.prim none .mb []), (.call none ["input_readers", "cur_snap_readers", "qsreaders", "group"] [.addrGlob "&cur_snap_readers", .null, .addrGlob "&qsreaders", .addrGlob "&acquire_group"] «memb.wait_for_readers»), (.prim none (.ext "cds_list_splice") [.addrGlob "&qsreaders", .addrGlob "registry"]), (.call none [] [] «memb.smp_mb_master»)])), (.assign "_goto_out" (.lit 0)), (.prim none (.ext "mutex_unlock") [.addrGlob "rcu_registry_lock"]), (.prim none (.ext "mutex_unlock") [.addrGlob "rcu_gp_lock"]), (.call none ["waiters"] [.addrGlob "&waiters"] «urcu_wake_all_waiters»)]
+def «memb.synchronize_rcu.params» : List String := []
 
 /-- `smp_mb_master` (src/urcu.c, with RCU_MB) -/
 def «mb.smp_mb_master» : Stmt :=
@@ -371,15 +391,75 @@ def «mb.smp_mb_master.params» : List String := []
 
 /-- `wait_gp` (src/urcu.c, with RCU_MB) -/
 def «mb.wait_gp» : Stmt :=
-  block [(.assign "_goto_end" (.lit 0)), (.call none [] [] «mb.smp_mb_master»), (.prim none (.ext "mutex_unlock") [.addrGlob "rcu_registry_lock"]), (.loop (block [(.prim (some "_t1") .uload [.fieldAddr (.addrGlob "rcu_gp") "futex", .cst "CMM_RELAXED" (0)]), (.ifte (.bin .eq (.var "_t1") (.lit (-1))) (block [(.prim (some "_t2") (.ext "futex_async") [.fieldAddr (.addrGlob "rcu_gp") "futex", .cst "FUTEX_WAIT" (0), .lit (-1), .null, .null, .lit 0]), (.ifte (.un .lnot (.var "_t2")) (.cont) (.skip)), (.prim (some "_t3") (.ext "errno") []), (.assign "_t4" (.var "_t3")), (.ifte (.bin .eq (.var "_t4") (.cst "EAGAIN" (11))) (block [(.assign "_goto_end" (.lit 1)), (.brk), (.ifte (.var "_goto_end") (.brk) (.skip))]) (.ifte (.bin .eq (.var "_t4") (.cst "EINTR" (4))) (.skip) (block [(.prim (some "_t5") (.ext "errno") []), (.prim none (.ext "urcu_die") [.var "_t5"])]))), (.ifte (.var "_goto_end") (.brk) (.skip))]) (.brk))])), (.prim none (.ext "mutex_lock") [.addrGlob "rcu_registry_lock"])]
+  block [(.assign "_goto_end" (.lit 0)), (.call none [] [] «mb.smp_mb_master»), (.prim none (.ext "mutex_unlock") [.addrGlob "rcu_registry_lock"]), (.loop (block [(.prim (some "_t1") .uload [.fieldAddr (.addrGlob "rcu_gp") "futex", .cst "CMM_RELAXED" (0)]), (.ifte (.bin .eq (.var "_t1") (.lit (-1))) (block [(.prim (some "_t2") (.ext "futex_async") [.fieldAddr (.addrGlob "rcu_gp") "futex", .cst "FUTEX_WAIT" (0), .lit (-1), .null, .null, .lit 0]), (.ifte (.un .lnot (.var "_t2")) (.cont) (.skip)), (.prim (some "_t3") (.ext "errno") []), (.assign "_t4" (.var "_t3")), (.ifte (.bin .eq (.var "_t4") (.cst "EAGAIN" (11))) (block [(.assign "_goto_end" (.lit 1)), (.brk)]) (.ifte (.bin .eq (.var "_t4") (.cst "EINTR" (4))) (.skip) (block [(.prim (some "_t5") (.ext "errno") []), (.prim none (.ext "urcu_die") [.var "_t5"])])))]) (.brk))])), (.assign "_goto_end" (.lit 0)), (.prim none (.ext "mutex_lock") [.addrGlob "rcu_registry_lock"])]
 def «mb.wait_gp.params» : List String := []
+
+/-- `wait_for_readers` (src/urcu.c, with RCU_MB) -/
+def «mb.wait_for_readers» : Stmt :=
+  block [(.assign "wait_loops" (.lit 0)), (.loop (block [(.ifte (.bin .lt (.var "wait_loops") (.cst "mb.RCU_QS_ACTIVE_ATTEMPTS" (100))) (block [(.assign "_t1" (.var "wait_loops")), (.assign "wait_loops" (.bin .add (.var "wait_loops") (.lit 1)))]) (.skip)), (.ifte (.bin .ge (.var "wait_loops") (.cst "mb.RCU_QS_ACTIVE_ATTEMPTS" (100))) (block [(.prim none .udec [.fieldAddr (.addrGlob "rcu_gp") "futex", .cst "CMM_RELAXED" (0)]), (.call none [] [] «mb.smp_mb_master»)]) (.skip)), (.prim (some "_t2") (.ext "cds_list_for_each_entry_safe.first") [.var "input_readers"]), (.loop (block [(.assign "index" (.var "_t2")), (.ifte (.var "index") (.skip) (.brk)), (.prim (some "_t2") (.ext "cds_list_for_each_entry_safe.next") ([.var "input_readers"] ++ [.var "index"])), (.assign "tmp" (.var "_t2")), (.call (some "_t3") ["gp", "ctr", "group"] [.addrGlob "rcu_gp", .fieldAddr (.var "index") "ctr", .var "group"] «urcu_common_reader_state»), (.assign "_t4" (.var "_t3")), (.loop (block [(.ifte (.bin .eq (.var "_t4") (.cst "URCU_READER_ACTIVE_CURRENT" (0))) (block [(.ifte (.var "cur_snap_readers") (block [(.prim none (.ext "cds_list_move") [.fieldAddr (.var "index") "node", .var "cur_snap_readers"]), (.brk)]) (.skip)), (.prim none (.ext "cds_list_move") [.fieldAddr (.var "index") "node", .var "qsreaders"]), (.brk)]) (.ifte (.bin .eq (.var "_t4") (.cst "URCU_READER_INACTIVE" (2))) (block [(.prim none (.ext "cds_list_move") [.fieldAddr (.var "index") "node", .var "qsreaders"]), (.brk)]) (.ifte (.bin .eq (.var "_t4") (.cst "URCU_READER_ACTIVE_OLD" (1))) (.brk) (.skip)))), (.brk)]))])), (.prim (some "_t5") (.ext "cds_list_empty") [.var "input_readers"]), (.ifte (.var "_t5") (block [(.ifte (.bin .ge (.var "wait_loops") (.cst "mb.RCU_QS_ACTIVE_ATTEMPTS" (100))) (block [(.call none [] [] «mb.smp_mb_master»), (.prim none .ustore [.fieldAddr (.addrGlob "rcu_gp") "futex", .lit 0, .cst "CMM_RELAXED" (0)])]) (.skip)), (.brk)]) (.ifte (.bin .ge (.var "wait_loops") (.cst "mb.RCU_QS_ACTIVE_ATTEMPTS" (100))) (.call none [] [] «mb.wait_gp») (block [(.prim none (.ext "mutex_unlock") [.addrGlob "rcu_registry_lock"]), (.prim none .relax []), (.prim none (.ext "mutex_lock") [.addrGlob "rcu_registry_lock"])])))]))]
+def «mb.wait_for_readers.params» : List String := ["input_readers", "cur_snap_readers", "qsreaders", "group"]
+
+/-- `synchronize_rcu` (src/urcu.c, with RCU_MB) -/
+def «mb.synchronize_rcu» : Stmt :=
+  block [(.assign "_goto_out" (.lit 0)), (.pstore (.fieldAddr (.addrGlob "&wait") "state") (.cst "URCU_WAIT_WAITING" (0))), (.call (some "_t1") ["queue", "node"] [.addrGlob "gp_waiters", .addrGlob "&wait"] «urcu_wait_add»), (.ifte (.bin .ne (.var "_t1") (.lit 0)) (block [(.call none ["wait"] [.addrGlob "&wait"] «urcu_adaptative_busy_wait»), (.ret none)]) (.skip)), (.call none ["node", "state"] [.addrGlob "&wait", .cst "URCU_WAIT_RUNNING" (2)] «urcu_wait_set_state»), (.prim none (.ext "mutex_lock") [.addrGlob "rcu_gp_lock"]), (.call none ["waiters", "queue"] [.addrGlob "&waiters", .addrGlob "gp_waiters"] «urcu_move_waiters»), (.prim none (.ext "mutex_lock") [.addrGlob "rcu_registry_lock"]), (.prim (some "_t2") (.ext "cds_list_empty") [.addrGlob "registry"]), (.ifte (.var "_t2") (.assign "_goto_out" (.lit 1)) (.skip)), (.ifte (.var "_goto_out") (.skip) (block [(.call none [] [] «mb.smp_mb_master»), (.call none ["input_readers", "cur_snap_readers", "qsreaders", "group"] [.addrGlob "registry", .addrGlob "&cur_snap_readers", .addrGlob "&qsreaders", .addrGlob "&acquire_group"] «mb.wait_for_readers»), (.prim none .barrier []), (.prim none .mb []), (.prim none .ustore [.fieldAddr (.addrGlob "rcu_gp") "ctr", .bin .bxor (.pload (.fieldAddr (.addrGlob "rcu_gp") "ctr")) (.cst "URCU_GP_CTR_PHASE" (4294967296)), .cst "CMM_RELAXED" (0)]), (.prim none .barrier []), (.prim none .mb []), (.call none ["input_readers", "cur_snap_readers", "qsreaders", "group"] [.addrGlob "&cur_snap_readers", .null, .addrGlob "&qsreaders", .addrGlob "&acquire_group"] «mb.wait_for_readers»), (.prim none (.ext "cds_list_splice") [.addrGlob "&qsreaders", .addrGlob "registry"]), (.call none [] [] «mb.smp_mb_master»)])), (.assign "_goto_out" (.lit 0)), (.prim none (.ext "mutex_unlock") [.addrGlob "rcu_registry_lock"]), (.prim none (.ext "mutex_unlock") [.addrGlob "rcu_gp_lock"]), (.call none ["waiters"] [.addrGlob "&waiters"] «urcu_wake_all_waiters»)]
+def «mb.synchronize_rcu.params» : List String := []
 
 /-- `wait_gp` (src/urcu-qsbr.c) -/
 def «qsbr.wait_gp» : Stmt :=
   block [(.prim none .rmb []), (.loop (block [(.prim (some "_t1") .uload [.fieldAddr (.addrGlob "urcu_qsbr_gp") "futex", .cst "CMM_RELAXED" (0)]), (.ifte (.bin .eq (.var "_t1") (.lit (-1))) (block [(.prim (some "_t2") (.ext "futex_noasync") [.fieldAddr (.addrGlob "urcu_qsbr_gp") "futex", .cst "FUTEX_WAIT" (0), .lit (-1), .null, .null, .lit 0]), (.ifte (.un .lnot (.var "_t2")) (.cont) (.skip)), (.prim (some "_t3") (.ext "errno") []), (.assign "_t4" (.var "_t3")), (.ifte (.bin .eq (.var "_t4") (.cst "EAGAIN" (11))) (.ret none) (.ifte (.bin .eq (.var "_t4") (.cst "EINTR" (4))) (.skip) (block [(.prim (some "_t5") (.ext "errno") []), (.prim none (.ext "urcu_die") [.var "_t5"])])))]) (.brk))]))]
 def «qsbr.wait_gp.params» : List String := []
 
+/-- `urcu_qsbr_reader_state` (include/urcu/static/urcu-qsbr.h) -/
+def «urcu_qsbr_reader_state» : Stmt :=
+  block [(.prim (some "_t1") .uload [.var "ctr", .cst "CMM_RELAXED" (0)]), (.assign "v" (.var "_t1")), (.ifte (.un .lnot (.var "v")) (.ret (some (.cst "URCU_READER_INACTIVE" (2)))) (.skip)), (.ifte (.bin .eq (.var "v") (.pload (.fieldAddr (.addrGlob "urcu_qsbr_gp") "ctr"))) (.ret (some (.cst "URCU_READER_ACTIVE_CURRENT" (0)))) (.skip)), (.ret (some (.cst "URCU_READER_ACTIVE_OLD" (1))))]
+def «urcu_qsbr_reader_state.params» : List String := ["ctr", "group"]
+
+/-- `wait_for_readers` (src/urcu-qsbr.c) -/
+def «qsbr.wait_for_readers» : Stmt :=
+  block [(.assign "wait_loops" (.lit 0)), (.loop (block [(.ifte (.bin .lt (.var "wait_loops") (.cst "qsbr.RCU_QS_ACTIVE_ATTEMPTS" (100))) (block [(.assign "_t1" (.var "wait_loops")), (.assign "wait_loops" (.bin .add (.var "wait_loops") (.lit 1)))]) (.skip)), (.ifte (.bin .ge (.var "wait_loops") (.cst "qsbr.RCU_QS_ACTIVE_ATTEMPTS" (100))) (block [(.prim none .ustore [.fieldAddr (.addrGlob "urcu_qsbr_gp") "futex", .lit (-1), .cst "CMM_RELAXED" (0)]), (.prim none .wmb []), (.prim (some "_t2") (.ext "cds_list_for_each_entry.first") [.var "input_readers"]), (.loop (block [(.assign "index" (.var "_t2")), (.ifte (.var "index") (.skip) (.brk)), (.prim (some "_t2") (.ext "cds_list_for_each_entry.next") ([.var "input_readers"] ++ [.var "index"])), (.prim none .ustore [.fieldAddr (.var "index") "waiting", .lit 1, .cst "CMM_RELAXED" (0)])])), (.prim none .mb [])]) (.skip)), (.prim (some "_t3") (.ext "cds_list_for_each_entry_safe.first") [.var "input_readers"]), (.loop (block [(.assign "index" (.var "_t3")), (.ifte (.var "index") (.skip) (.brk)), (.prim (some "_t3") (.ext "cds_list_for_each_entry_safe.next") ([.var "input_readers"] ++ [.var "index"])), (.assign "tmp" (.var "_t3")), (.call (some "_t4") ["ctr", "group"] [.fieldAddr (.var "index") "ctr", .var "group"] «urcu_qsbr_reader_state»), (.assign "_t5" (.var "_t4")), (.loop (block [(.ifte (.bin .eq (.var "_t5") (.cst "URCU_READER_ACTIVE_CURRENT" (0))) (block [(.ifte (.var "cur_snap_readers") (block [(.prim none (.ext "cds_list_move") [.fieldAddr (.var "index") "node", .var "cur_snap_readers"]), (.brk)]) (.skip)), (.prim none (.ext "cds_list_move") [.fieldAddr (.var "index") "node", .var "qsreaders"]), (.brk)]) (.ifte (.bin .eq (.var "_t5") (.cst "URCU_READER_INACTIVE" (2))) (block [(.prim none (.ext "cds_list_move") [.fieldAddr (.var "index") "node", .var "qsreaders"]), (.brk)]) (.ifte (.bin .eq (.var "_t5") (.cst "URCU_READER_ACTIVE_OLD" (1))) (.brk) (.skip)))), (.brk)]))])), (.prim (some "_t6") (.ext "cds_list_empty") [.var "input_readers"]), (.ifte (.var "_t6") (block [(.ifte (.bin .ge (.var "wait_loops") (.cst "qsbr.RCU_QS_ACTIVE_ATTEMPTS" (100))) (.prim none .ustore [.fieldAddr (.addrGlob "urcu_qsbr_gp") "futex", .lit 0, .cst "CMM_RELEASE" (3)]) (.skip)), (.brk)]) (block [(.prim none (.ext "mutex_unlock") [.addrGlob "rcu_registry_lock"]), (.ifte (.bin .ge (.var "wait_loops") (.cst "qsbr.RCU_QS_ACTIVE_ATTEMPTS" (100))) (.call none [] [] «qsbr.wait_gp») (.prim none .relax [])), (.prim none (.ext "mutex_lock") [.addrGlob "rcu_registry_lock"])]))]))]
+def «qsbr.wait_for_readers.params» : List String := ["input_readers", "cur_snap_readers", "qsreaders", "group"]
+
+/-- `urcu_qsbr_read_ongoing` (src/urcu-qsbr.c) -/
+def «qsbr.urcu_qsbr_read_ongoing» : Stmt :=
+  block [(.call (some "_t1") [] [] «_urcu_qsbr_read_ongoing»), (.ret (some (.var "_t1")))]
+def «qsbr.urcu_qsbr_read_ongoing.params» : List String := []
+
+/-- `urcu_qsbr_thread_offline` (src/urcu-qsbr.c) -/
+def «qsbr.urcu_qsbr_thread_offline» : Stmt :=
+  .call none [] [] «_urcu_qsbr_thread_offline»
+def «qsbr.urcu_qsbr_thread_offline.params» : List String := []
+
+/-- `urcu_qsbr_thread_online` (src/urcu-qsbr.c) -/
+def «qsbr.urcu_qsbr_thread_online» : Stmt :=
+  .call none [] [] «_urcu_qsbr_thread_online»
+def «qsbr.urcu_qsbr_thread_online.params» : List String := []
+
+/-- `urcu_qsbr_synchronize_rcu` (src/urcu-qsbr.c) -/
+def «qsbr.urcu_qsbr_synchronize_rcu» : Stmt :=
+  block [(.assign "_goto_gp_end" (.lit 0)), (.assign "_goto_out" (.lit 0)), (.pstore (.fieldAddr (.addrGlob "&wait") "state") (.cst "URCU_WAIT_WAITING" (0))), (.call (some "_t1") [] [] «qsbr.urcu_qsbr_read_ongoing»), (.assign "was_online" (.var "_t1")), (.ifte (.var "was_online") (.call none [] [] «qsbr.urcu_qsbr_thread_offline») (.prim none .mb [])), (.call (some "_t2") ["queue", "node"] [.addrGlob "gp_waiters", .addrGlob "&wait"] «urcu_wait_add»), (.ifte (.bin .ne (.var "_t2") (.lit 0)) (block [(.call none ["wait"] [.addrGlob "&wait"] «urcu_adaptative_busy_wait»), (.assign "_goto_gp_end" (.lit 1))]) (.skip)), (.ifte (.var "_goto_gp_end") (.skip) (block [(.call none ["node", "state"] [.addrGlob "&wait", .cst "URCU_WAIT_RUNNING" (2)] «urcu_wait_set_state»), (.prim none (.ext "mutex_lock") [.addrGlob "rcu_gp_lock"]), (.call none ["waiters", "queue"] [.addrGlob "&waiters", .addrGlob "gp_waiters"] «urcu_move_waiters»), (.prim none (.ext "mutex_lock") [.addrGlob "rcu_registry_lock"]), (.prim (some "_t3") (.ext "cds_list_empty") [.addrGlob "registry"]), (.ifte (.var "_t3") (.assign "_goto_out" (.lit 1)) (.skip)), (.ifte (.var "_goto_out") (.skip) (block [(.prim none .ustore [.fieldAddr (.addrGlob "urcu_qsbr_gp") "ctr", .bin .add (.pload (.fieldAddr (.addrGlob "urcu_qsbr_gp") "ctr")) (.cst "URCU_QSBR_GP_CTR" (2)), .cst "CMM_RELAXED" (0)]), (.prim none .barrier []), (.prim none .mb []), (.call none ["input_readers", "cur_snap_readers", "qsreaders", "group"] [.addrGlob "registry", .null, .addrGlob "&qsreaders", .addrGlob "&acquire_group"] «qsbr.wait_for_readers»), (.prim none (.ext "cds_list_splice") [.addrGlob "&qsreaders", .addrGlob "registry"])])), (.assign "_goto_out" (.lit 0)), (.prim none (.ext "mutex_unlock") [.addrGlob "rcu_registry_lock"]), (.prim none (.ext "mutex_unlock") [.addrGlob "rcu_gp_lock"]), (.call none ["waiters"] [.addrGlob "&waiters"] «urcu_wake_all_waiters»)])), (.assign "_goto_gp_end" (.lit 0)), (.ifte (.var "was_online") (.call none [] [] «qsbr.urcu_qsbr_thread_online») (.prim none .mb []))]
+def «qsbr.urcu_qsbr_synchronize_rcu.params» : List String := []
+
+/-- `smp_mb_master` (src/urcu-bp.c) -/
+def «bp.smp_mb_master» : Stmt :=
+  .ifte (.pload (.addrGlob "urcu_bp_has_sys_membarrier")) (block [(.prim (some "_t1") (.ext "membarrier") [.cst "MEMBARRIER_CMD_PRIVATE_EXPEDITED" (8), .lit 0]), (.ifte (.var "_t1") (block [(.prim (some "_t2") (.ext "errno") []), (.prim none (.ext "urcu_die") [.var "_t2"])]) (.skip))]) (.prim none .mb [])
+def «bp.smp_mb_master.params» : List String := []
+
+/-- `urcu_bp_reader_state` (include/urcu/static/urcu-bp.h) -/
+def «urcu_bp_reader_state» : Stmt :=
+  block [(.ifte (.bin .eq (.var "ctr") (.null)) (.ret (some (.cst "URCU_BP_READER_INACTIVE" (2)))) (.skip)), (.prim (some "_t1") .uload [.var "ctr", .cst "CMM_RELAXED" (0)]), (.assign "v" (.var "_t1")), (.ifte (.un .lnot (.bin .band (.var "v") (.cst "URCU_BP_GP_CTR_NEST_MASK" (4294967295)))) (.ret (some (.cst "URCU_BP_READER_INACTIVE" (2)))) (.skip)), (.ifte (.un .lnot (.bin .band (.bin .bxor (.var "v") (.pload (.fieldAddr (.addrGlob "urcu_bp_gp") "ctr"))) (.cst "URCU_BP_GP_CTR_PHASE" (4294967296)))) (.ret (some (.cst "URCU_BP_READER_ACTIVE_CURRENT" (0)))) (.skip)), (.ret (some (.cst "URCU_BP_READER_ACTIVE_OLD" (1))))]
+def «urcu_bp_reader_state.params» : List String := ["ctr", "group"]
+
+/-- `wait_for_readers` (src/urcu-bp.c) -/
+def «bp.wait_for_readers» : Stmt :=
+  block [(.assign "wait_loops" (.lit 0)), (.loop (block [(.ifte (.bin .lt (.var "wait_loops") (.cst "bp.RCU_QS_ACTIVE_ATTEMPTS" (100))) (block [(.assign "_t1" (.var "wait_loops")), (.assign "wait_loops" (.bin .add (.var "wait_loops") (.lit 1)))]) (.skip)), (.prim (some "_t2") (.ext "cds_list_for_each_entry_safe.first") [.var "input_readers"]), (.loop (block [(.assign "index" (.var "_t2")), (.ifte (.var "index") (.skip) (.brk)), (.prim (some "_t2") (.ext "cds_list_for_each_entry_safe.next") ([.var "input_readers"] ++ [.var "index"])), (.assign "tmp" (.var "_t2")), (.call (some "_t3") ["ctr", "group"] [.fieldAddr (.var "index") "ctr", .var "group"] «urcu_bp_reader_state»), (.assign "_t4" (.var "_t3")), (.loop (block [(.ifte (.bin .eq (.var "_t4") (.cst "URCU_BP_READER_ACTIVE_CURRENT" (0))) (block [(.ifte (.var "cur_snap_readers") (block [(.prim none (.ext "cds_list_move") [.fieldAddr (.var "index") "node", .var "cur_snap_readers"]), (.brk)]) (.skip)), (.prim none (.ext "cds_list_move") [.fieldAddr (.var "index") "node", .var "qsreaders"]), (.brk)]) (.ifte (.bin .eq (.var "_t4") (.cst "URCU_BP_READER_INACTIVE" (2))) (block [(.prim none (.ext "cds_list_move") [.fieldAddr (.var "index") "node", .var "qsreaders"]), (.brk)]) (.ifte (.bin .eq (.var "_t4") (.cst "URCU_BP_READER_ACTIVE_OLD" (1))) (.brk) (.skip)))), (.brk)]))])), (.prim (some "_t5") (.ext "cds_list_empty") [.var "input_readers"]), (.ifte (.var "_t5") (.brk) (block [(.prim none (.ext "mutex_unlock") [.addrGlob "rcu_registry_lock"]), (.ifte (.bin .ge (.var "wait_loops") (.cst "bp.RCU_QS_ACTIVE_ATTEMPTS" (100))) (.prim none (.ext "poll") [.null, .lit 0, .cst "bp.RCU_SLEEP_DELAY_MS" (10)]) (.prim none .relax [])), (.prim none (.ext "mutex_lock") [.addrGlob "rcu_registry_lock"])]))]))]
+def «bp.wait_for_readers.params» : List String := ["input_readers", "cur_snap_readers", "qsreaders", "group"]
+
+/-- `urcu_bp_synchronize_rcu` (src/urcu-bp.c) -/
+def «bp.urcu_bp_synchronize_rcu» : Stmt :=
+  block [(.assign "_goto_out" (.lit 0)), (.prim (some "_t1") (.ext "sigfillset") [.addrGlob "&newmask"]), (.assign "ret" (.var "_t1")), (.prim (some "_t2") (.ext "pthread_sigmask") [.cst "SIG_BLOCK" (0), .addrGlob "&newmask", .addrGlob "&oldmask"]), (.assign "ret" (.var "_t2")), (.prim none (.ext "mutex_lock") [.addrGlob "rcu_gp_lock"]), (.prim none (.ext "mutex_lock") [.addrGlob "rcu_registry_lock"]), (.prim (some "_t3") (.ext "cds_list_empty") [.addrGlob "registry"]), (.ifte (.var "_t3") (.assign "_goto_out" (.lit 1)) (.skip)), (.ifte (.var "_goto_out") (.skip) (block [(.call none [] [] «bp.smp_mb_master»), (.call none ["input_readers", "cur_snap_readers", "qsreaders", "group"] [.addrGlob "registry", .addrGlob "&cur_snap_readers", .addrGlob "&qsreaders", .addrGlob "&acquire_group"] «bp.wait_for_readers»), (.prim none .mb []), (.prim none .ustore [.fieldAddr (.addrGlob "rcu_gp") "ctr", .bin .bxor (.pload (.fieldAddr (.addrGlob "rcu_gp") "ctr")) (.cst "URCU_BP_GP_CTR_PHASE" (4294967296)), .cst "CMM_RELAXED" (0)]), (.prim none .mb []), (.call none ["input_readers", "cur_snap_readers", "qsreaders", "group"] [.addrGlob "&cur_snap_readers", .null, .addrGlob "&qsreaders", .addrGlob "&acquire_group"] «bp.wait_for_readers»), (.prim none (.ext "cds_list_splice") [.addrGlob "&qsreaders", .addrGlob "registry"]), (.call none [] [] «bp.smp_mb_master»)])), (.assign "_goto_out" (.lit 0)), (.prim none (.ext "mutex_unlock") [.addrGlob "rcu_registry_lock"]), (.prim none (.ext "mutex_unlock") [.addrGlob "rcu_gp_lock"]), (.prim (some "_t4") (.ext "pthread_sigmask") [.cst "SIG_SETMASK" (2), .addrGlob "&oldmask", .null]), (.assign "ret" (.var "_t4"))]
+def «bp.urcu_bp_synchronize_rcu.params» : List String := []
+
 /-- functions the translator could not express in the IR subset (listed, never defaulted) -/
 def untranslated : List String := []
-def translated : List String := ["urcu_memb_smp_mb_slave", "_urcu_memb_read_lock_update", "_urcu_memb_read_lock", "urcu_common_wake_up_gp", "_urcu_memb_read_unlock_update_and_wakeup", "_urcu_memb_read_unlock", "_urcu_memb_read_ongoing", "_urcu_mb_read_lock_update", "_urcu_mb_read_lock", "_urcu_mb_read_unlock_update_and_wakeup", "_urcu_mb_read_unlock", "_urcu_mb_read_ongoing", "urcu_bp_smp_mb_slave", "_urcu_bp_read_lock_update", "_urcu_bp_read_lock", "_urcu_bp_read_unlock", "_urcu_bp_read_ongoing", "_urcu_qsbr_read_lock", "_urcu_qsbr_read_unlock", "_urcu_qsbr_read_ongoing", "urcu_qsbr_wake_up_gp", "_urcu_qsbr_quiescent_state_update_and_wakeup", "_urcu_qsbr_quiescent_state", "_urcu_qsbr_thread_offline", "_urcu_qsbr_thread_online", "___cds_wfs_end", "_cds_wfs_push", "___cds_wfs_node_sync_next", "___cds_wfs_pop", "___cds_wfs_pop_all", "_cds_wfs_empty", "___cds_lfs_empty_head", "_cds_lfs_push", "___cds_lfs_pop", "___cds_lfs_pop_all", "_cds_lfs_empty", "___cds_wfcq_append", "_cds_wfcq_enqueue", "_cds_wfcq_empty", "___cds_wfcq_busy_wait", "___cds_wfcq_node_sync_next", "_cds_wfcq_node_init_atomic", "___cds_wfcq_dequeue_with_state", "___cds_wfcq_splice", "_cds_lfq_enqueue_rcu", "make_dummy", "enqueue_dummy", "rcu_free_dummy", "_cds_lfq_dequeue_rcu", "urcu_ref_get_safe", "urcu_ref_put", "urcu_ref_get_unless_zero", "urcu_wait_add", "urcu_move_waiters", "urcu_wait_set_state", "urcu_wait_node_init", "urcu_adaptative_wake_up", "urcu_adaptative_busy_wait", "call_rcu_wait", "call_rcu_wake_up", "call_rcu_completion_wait", "call_rcu_completion_wake_up", "wake_call_rcu_thread", "_cds_wfcq_node_init", "_call_rcu", "futex_wait", "futex_wake_up", "wake_worker_thread", "wake_up_defer", "wait_defer", "memb.smp_mb_master", "memb.wait_gp", "mb.smp_mb_master", "mb.wait_gp", "qsbr.wait_gp"]
+def translated : List String := ["urcu_memb_smp_mb_slave", "_urcu_memb_read_lock_update", "_urcu_memb_read_lock", "urcu_common_wake_up_gp", "_urcu_memb_read_unlock_update_and_wakeup", "_urcu_memb_read_unlock", "_urcu_memb_read_ongoing", "_urcu_mb_read_lock_update", "_urcu_mb_read_lock", "_urcu_mb_read_unlock_update_and_wakeup", "_urcu_mb_read_unlock", "_urcu_mb_read_ongoing", "urcu_bp_smp_mb_slave", "_urcu_bp_read_lock_update", "_urcu_bp_read_lock", "_urcu_bp_read_unlock", "_urcu_bp_read_ongoing", "_urcu_qsbr_read_lock", "_urcu_qsbr_read_unlock", "_urcu_qsbr_read_ongoing", "urcu_qsbr_wake_up_gp", "_urcu_qsbr_quiescent_state_update_and_wakeup", "_urcu_qsbr_quiescent_state", "_urcu_qsbr_thread_offline", "_urcu_qsbr_thread_online", "___cds_wfs_end", "_cds_wfs_push", "___cds_wfs_node_sync_next", "___cds_wfs_pop", "___cds_wfs_pop_all", "_cds_wfs_empty", "___cds_lfs_empty_head", "_cds_lfs_push", "___cds_lfs_pop", "___cds_lfs_pop_all", "_cds_lfs_empty", "___cds_wfcq_append", "_cds_wfcq_enqueue", "_cds_wfcq_empty", "___cds_wfcq_busy_wait", "___cds_wfcq_node_sync_next", "_cds_wfcq_node_init_atomic", "___cds_wfcq_dequeue_with_state", "___cds_wfcq_splice", "_cds_lfq_enqueue_rcu", "make_dummy", "enqueue_dummy", "rcu_free_dummy", "_cds_lfq_dequeue_rcu", "urcu_ref_get_safe", "urcu_ref_put", "urcu_ref_get_unless_zero", "urcu_wait_add", "urcu_move_waiters", "urcu_wait_set_state", "urcu_wait_node_init", "urcu_adaptative_wake_up", "urcu_adaptative_busy_wait", "call_rcu_wait", "call_rcu_wake_up", "call_rcu_completion_wait", "call_rcu_completion_wake_up", "wake_call_rcu_thread", "_cds_wfcq_node_init", "_call_rcu", "futex_wait", "futex_wake_up", "wake_worker_thread", "wake_up_defer", "wait_defer", "urcu_wake_all_waiters", "memb.smp_mb_master", "memb.wait_gp", "urcu_common_reader_state", "memb.wait_for_readers", "memb.synchronize_rcu", "mb.smp_mb_master", "mb.wait_gp", "mb.wait_for_readers", "mb.synchronize_rcu", "qsbr.wait_gp", "urcu_qsbr_reader_state", "qsbr.wait_for_readers", "qsbr.urcu_qsbr_read_ongoing", "qsbr.urcu_qsbr_thread_offline", "qsbr.urcu_qsbr_thread_online", "qsbr.urcu_qsbr_synchronize_rcu", "bp.smp_mb_master", "urcu_bp_reader_state", "bp.wait_for_readers", "bp.urcu_bp_synchronize_rcu"]
 end UrcuVerif.Gen.Src
